@@ -25,7 +25,7 @@ CHECKS = {
          "Seeded exploration of (L, read history, target size around L / huge claimed lengths / compressed targets whose wire size is around L, crossing frame, controls, chunking); within-limit messages must be readable whatever the history, over-limit ones refused before the crossing frame's payload with ErrReadLimit + 1009; allocation must not grow with the claimed length.",
          "limit counted in wire payload bytes; runtime.MemStats.TotalAlloc as allocation counter", "3/C06"),
  "C08": ("exploration", "runtime monitoring: handler/data event log with one counter vs. wire order of an independently encoded stream; decoded pong/close echoes; complete enumeration of acceptable close codes",
-         "All 2009 acceptable close codes x reason lengths x roles are enumerated; seeded streams put control frames at every kind of position; a concurrent family checks pong payloads while other goroutines use WriteControl; handler calls must match the wire exactly once, in order, correctly placed relative to delivered bytes; echoes decoded from the write log; handler errors permanent.",
+         "All 2009 acceptable close codes x reason lengths x roles are enumerated; seeded streams put control frames at every kind of position; a concurrent family checks pong payloads while other goroutines use WriteControl; a third of the client-role executions build the connection with the real Dialer.Dial with the stream glued behind the 101 reply; handler calls must match the wire exactly once, in order, correctly placed relative to delivered bytes; echoes decoded from the write log; handler errors permanent.",
          "single-goroutine executions so best-effort echoes are deterministic", "3/C08"),
  "C17": ("exploration", "runtime monitoring: every split of a frame stream across the handshake boundary through the real Upgrader.Upgrade (fake Hijacker) and Dialer.Dial (scripted conn)",
          "For each generated stream every split between hijacked buffer and socket x 6 hijacked reader sizes x 6 ReadBufferSizes (server) and every cut of '101 + frames' (client) is executed; the messages read must equal the messages encoded.",
@@ -40,7 +40,7 @@ CHECKS = {
          "For each generated program (with invalid requests and distinct deadlines) every SetWriteDeadline/Write index is faulted in three ways; written bytes must be a valid-frame prefix of the clean run, nothing is written afterwards, every later message-level call fails; invalid requests write nothing; every Write is preceded by the expected deadline.",
          "mask keys replayed through VerifSetMaskRand; programs sampled, fault points exhaustive per program", "3/C10"),
  "C11": ("exploration", "Go race detector + transport overlap/sequence monitors + independent decoding of both directions + porcupine history check under goroutine stress; gate scenario for WriteControl deadlines; shared PreparedMessage/pool scenario",
-         "W1/W2/W3 scenario families run in a plain and a -race build; zero race reports attributed to the library, no overlapping transport writes, contiguous well-formed frames, intact round trip, linearizable write-side history, WriteControl returning a timeout error (and leaving no frame) while the connection is held.",
+         "W1/W2/W3 scenario families run in a plain and a -race build; zero race reports attributed to the library, no overlapping transport writes, contiguous well-formed frames, intact round trip, linearizable write-side history, at every transport Write of an own frame the armed write deadline is the one in force for that frame (values compared, not the clock), WriteControl returning a timeout error (and leaving no frame) while the connection is held.",
          "schedules sampled (thousands of short runs); the race detector sees only synchronisation it observes", "3/C11"),
  "C12": ("exploration", "runtime monitoring: requests from a handshake grammar classified MUST_ACCEPT/MUST_REJECT/UNSPECIFIED by an independent classifier; Upgrade run on a Hijacker spy and through a real net/http server; strict independent parsing of the 101 (line accounting against injection, Accept digest)",
          "Seeded exploration of the request grammar x Upgrader settings x hostile responseHeader values; accepted iff classified valid (UNSPECIFIED not judged), 101 strictly parsed with exact line count, refusals never hijack and carry 4xx/403/426.",
@@ -52,13 +52,13 @@ CHECKS = {
          "Seeded exploration of URLs with known expected request target, Dialer settings, caller headers and reply plans; request line/Host/protocol headers/key freshness judged from the wire; Dial must connect iff all four reply conditions hold for this request's key, otherwise ErrBadHandshake with status, headers and <=1024 body bytes.",
          "strict parser internal/httpx; key distinctness checked per worker process", "3/C14"),
  "C15": ("exploration", "runtime monitoring: real Dialer against real Upgrader over an in-memory transport with the wire watched for RSV1; raw extension offers against the Upgrader; scripted 101 replies against the Dialer; behavioural probes (does it send RSV1, does it accept a compressed frame)",
-         "All four EnableCompression pairs are connected and generated toggle/level/message sequences cross in both directions; announcement only if offered and enabled; compression in use iff the 101 carried both no_context_takeover parameters; endpoints agree.",
+         "All four EnableCompression pairs are connected and generated toggle/level/message sequences (WriteMessage, closed writers, writers left to the implicit close, toggles with a writer open) cross in both directions; announcement only if offered and enabled; compression in use iff the 101 carried both no_context_takeover parameters; endpoints agree.",
          "behavioural probes instead of field inspection", "3/C15"),
  "C16": ("fault_enumeration", "runtime monitoring with fault injection at every transport operation index x {error, timeout, EOF} during Dial (direct, CONNECT proxy, TLS, TLS through tunnel) and Upgrade; blocking peers under a 50 ms timeout; Close/deadline log of the scripted conn",
          "Every operation of every configuration is faulted; failure => nil conn, error, transport closed (before hijack: untouched); success => open and no deadline armed; with a timeout configured every I/O operation runs under a deadline no later than it; a silent peer at each phase makes Dial return.",
          "TLS peers in-process over an in-memory pipe; the TLS handshake inside the dial function is judged by the blocking form", "3/C16"),
  "C18": ("exploration", "runtime monitoring: configuration matrix executed against in-process loopback backends, HTTP(S) CONNECT and SOCKS5 proxies that record requests, TLS state and connection provenance, and recording dial hooks",
-         "Thorough enumerates the whole matrix (proxy kind x scheme x 8 hook subsets x credentials x certificate x host form x refusal); quick a stride sample. Exactly one CONNECT with the right target/authorization, backend only through the proxy, WebSocket request only inside verified TLS for wss, no request to unverified peers, first hop by the applicable hook.",
+         "Thorough enumerates the whole matrix (proxy kind x scheme x 8 hook subsets x credentials x certificate x host form x refusal); quick a stride sample; both tiers add all cells of the dial paths that take the proxy from the process environment (DefaultDialer, nil *Dialer, Proxy: http.ProxyFromEnvironment x scheme x certificate x port form). Exactly one CONNECT with the right target/authorization, backend only through the proxy, WebSocket request only inside verified TLS for wss, no request to unverified peers, first hop by the applicable hook.",
          "loopback TCP; in-process CA (ECDSA P-256)", "3/C18"),
  "C19": ("exploration", "runtime monitoring: one PreparedMessage sent to generated sets of connections (role x negotiated x enabled x level), sequentially and from concurrent goroutines; each write log decoded independently and compared with the original payload and a WriteMessage twin",
          "Seeded exploration of message type/size x connection sets x send/toggle/level/mutation sequences; decoded type, payload and compressed flag must match the settings at the time of the call and a twin WriteMessage.",
